@@ -191,6 +191,9 @@ def listing_cases_from_templates(templates, rng, tag, copies, maxlines=10):
         n = rng.randint(1, maxlines)
         part = pool[i:i + n]
         i += n
+        if rng.random() < 0.3:
+            # concatenated listings overlap: a line may simply occur twice (each occurrence is a line of its own)
+            part = part + [part[rng.randrange(len(part))]]
         cases.append({"id": f"{tag}-{len(cases)}", "kind": "listing", "via": "api",
                       "lines": [list(p[0]) for p in part], "tmpl": [p[1] for p in part],
                       "final_newline": rng.random() < 0.8})
@@ -202,8 +205,13 @@ def label_listing_cases(labels, rng, tag, per=48):
     cases = []
     for i in range(0, len(labels), per):
         lines = []
-        for lab in labels[i:i + per]:
-            lines.append("\t".join([make_unit(rng.choice(["plain", "icode"]), rng), lab, make_unit("plain", rng)]))
+        for k, lab in enumerate(labels[i:i + per]):
+            u1, u2 = make_unit(rng.choice(["plain", "icode"]), rng), make_unit("plain", rng)
+            if k % 6 == 5 and lines:
+                # the same two residues as the line before, under another label (e.g. cWW and cWWa, or two
+                # different unknown labels): two lines, two interactions
+                u1, _, u2 = lines[-1].split("\t")
+            lines.append("\t".join([u1, lab, u2]))
         cases.append({"id": f"{tag}-{len(cases)}", "kind": "listing", "via": "api", "lines": [list(x) for x in lines],
                       "tmpl": [], "final_newline": True})
     return cases
